@@ -32,7 +32,7 @@ use serde_json::{Value, json};
 
 const FP: i64 = 60;
 const RCB: i64 = 1000;
-const RC_CELLS: i64 = 12;
+const RC_CELLS: i64 = 24;
 const SEGB: i64 = 2000; // other builtin / pointer parameters (unconstrained cells)
 
 fn canon(v: &BigInt) -> BigInt {
@@ -165,7 +165,6 @@ fn generate(name: &str, job: &Value, c: &Compiled) -> Result<(String, Value), Un
         let l = g.succ(n)?.iter().map(|s| longest[&(*s, ap + d)]).max().unwrap_or(0) + 1;
         longest.insert((n, ap), l);
     }
-    let length = longest[&(entry, 0)] + 1;
 
     // layout of parameters and results
     let mut lay = Layout {
@@ -348,6 +347,10 @@ fn generate(name: &str, job: &Value, c: &Compiled) -> Result<(String, Value), Un
     let mut rets: Vec<(usize, i64)> = vec![];
     let mut nonlinear = 0;
     let act = |n: usize, ap: i64| format!("I{n}_{ap}");
+    let cname = |n: usize, ap: i64| format!("C{n}_{ap}");
+    // per node: the instruction's constraint on memory as an operator, its pc update, its ap delta
+    let mut node_next: BTreeMap<(usize, i64), String> = BTreeMap::new();
+    let mut node_succ: BTreeMap<(usize, i64), Vec<(usize, i64)>> = BTreeMap::new();
     for &(n, ap) in &reach {
         let i = &ins[n];
         let text = format!("{i}").replace('\n', " ");
@@ -395,25 +398,86 @@ fn generate(name: &str, job: &Value, c: &Compiled) -> Result<(String, Value), Un
             }
             _ => return Err(Unsupported("instruction kind".into())),
         }
-        let _ = writeln!(t, "{} ==\n  /\\ pc = {n}\n  /\\ ap = {}", act(n, ap), FP + ap);
-        for c in cons {
-            let _ = writeln!(t, "  /\\ {c}");
-        }
-        let _ = writeln!(t, "  /\\ pc' = {next}\n  /\\ ap' = ap + {d}\n  /\\ UNCHANGED mem\n");
+        let _ = writeln!(t, "{} == {}\n", cname(n, ap), cons.first().cloned().unwrap_or("TRUE".into()));
+        node_next.insert((n, ap), next);
+        node_succ.insert((n, ap), g.succ(n)?.into_iter().map(|s| (s, ap + d)).collect());
     }
+    // actions: one per instruction ("instr") or one per straight-line block of instructions ("block":
+    // the conjunction of the block's instruction constraints; a `ret` is always a block of its own so
+    // that the state at the `ret` exists)
+    let big_step = job.get("step").and_then(|s| s.as_str()).unwrap_or("block") == "block";
+    let mut preds: BTreeMap<(usize, i64), usize> = BTreeMap::new();
+    for ss in node_succ.values() {
+        for s in ss {
+            *preds.entry(*s).or_default() += 1;
+        }
+    }
+    let is_ret = |x: &(usize, i64)| matches!(ins[x.0].body, InstructionBody::Ret(_));
+    let is_leader = |x: &(usize, i64)| -> bool {
+        if !big_step || *x == (entry, 0) || is_ret(x) || preds.get(x).cloned().unwrap_or(0) != 1 {
+            return true;
+        }
+        // single predecessor: leader iff that predecessor branches
+        let p = node_succ.iter().find(|(_, ss)| ss.contains(x)).map(|(p, _)| *p).unwrap();
+        node_succ[&p].len() != 1
+    };
+    let mut leaders: Vec<(usize, i64)> = vec![];
+    let mut block_len: BTreeMap<(usize, i64), usize> = BTreeMap::new();
+    for x in &reach {
+        if !is_leader(x) {
+            continue;
+        }
+        leaders.push(*x);
+        let mut chain = vec![*x];
+        loop {
+            let last = *chain.last().unwrap();
+            let ss = &node_succ[&last];
+            if ss.len() != 1 || is_leader(&ss[0]) {
+                break;
+            }
+            chain.push(ss[0]);
+        }
+        let last = *chain.last().unwrap();
+        let total: i64 = chain.iter().map(|c| g.ap_delta(c.0).unwrap_or(0)).sum();
+        let _ = writeln!(t, "{} ==\n  /\\ pc = {}\n  /\\ ap = {}", act(x.0, x.1), x.0, FP + x.1);
+        for c in &chain {
+            let _ = writeln!(t, "  /\\ {}", cname(c.0, c.1));
+        }
+        let _ = writeln!(t, "  /\\ pc' = {}\n  /\\ ap' = ap + {total}\n  /\\ UNCHANGED mem\n", node_next[&last]);
+        block_len.insert(*x, chain.len());
+    }
+    // longest path counted in actions
+    let mut blongest: BTreeMap<(usize, i64), usize> = BTreeMap::new();
+    for x in leaders.iter().rev() {
+        // walk to the end of the block
+        let mut last = *x;
+        loop {
+            let ss = &node_succ[&last];
+            if ss.len() != 1 || is_leader(&ss[0]) {
+                break;
+            }
+            last = ss[0];
+        }
+        let l = node_succ[&last].iter().map(|s| blongest[s]).max().unwrap_or(0) + 1;
+        blongest.insert(*x, l);
+    }
+    let length = blongest[&(entry, 0)] + 1;
+    let _ = length_unused(longest[&(entry, 0)]);
     let _ = writeln!(t, "Done == pc = {done} /\\ UNCHANGED <<mem, pc, ap>>\n");
     let _ = writeln!(t, "Next ==");
-    for &(n, ap) in &reach {
+    for &(n, ap) in &leaders {
         let _ = writeln!(t, "  \\/ {}", act(n, ap));
     }
     let _ = writeln!(t, "  \\/ Done\n");
     let _ = writeln!(t, "\\* the static ap used for the cell addresses above agrees with the ap register");
     let _ = writeln!(t, "ApOK ==");
     let instrs: std::collections::BTreeSet<usize> = reach.iter().map(|x| x.0).collect();
-    for &n in &instrs {
-        let aps: Vec<String> = reach.iter().filter(|x| x.0 == n).map(|x| format!("{}", FP + x.1)).collect();
+    let leader_instrs: std::collections::BTreeSet<usize> = leaders.iter().map(|x| x.0).collect();
+    for &n in &leader_instrs {
+        let aps: Vec<String> = leaders.iter().filter(|x| x.0 == n).map(|x| format!("{}", FP + x.1)).collect();
         let _ = writeln!(t, "  /\\ (pc = {n} => ap \\in {{{}}})", aps.join(", "));
     }
+    let _ = writeln!(t, "  /\\ pc \\in {{{}, {done}}}", leader_instrs.iter().map(|n| n.to_string()).collect::<Vec<_>>().join(", "));
     let post = job["post"].as_str().unwrap_or("TRUE");
     let _ = writeln!(t, "\nSound ==\n  /\\ ApOK");
     for &(r, rap) in &rets {
@@ -446,7 +510,7 @@ fn generate(name: &str, job: &Value, c: &Compiled) -> Result<(String, Value), Un
 
     let casm: Vec<String> = instrs.iter().map(|n| format!("{n}: {}", ins[*n]).replace('\n', " ")).collect();
     let info = json!({
-        "name": name, "module": module, "length": length, "n_instr": instrs.len(), "n_nodes": reach.len(), "rets": ret_instrs.iter().collect::<Vec<_>>(),
+        "name": name, "module": module, "length": length, "n_instr": instrs.len(), "n_nodes": reach.len(), "n_actions": leaders.len(), "rets": ret_instrs.iter().collect::<Vec<_>>(),
         "nonlinear": nonlinear, "arg_cells": lay.arg_cells, "fp": FP, "casm": casm,
         "entry_syms": lay.entry_syms.iter().map(|(s, a)| json!([s, a])).collect::<Vec<_>>(),
         "gas_consts": gas_consts.iter().map(|(s, a)| json!([s, a])).collect::<Vec<_>>(),
@@ -454,6 +518,8 @@ fn generate(name: &str, job: &Value, c: &Compiled) -> Result<(String, Value), Un
     });
     Ok((t, info))
 }
+
+fn length_unused(_: usize) {}
 
 fn cmd_gen(jobs_path: &str, outdir: &str, result_path: &str) {
     let jobs = read_ndjson(jobs_path);
